@@ -112,7 +112,7 @@ theorem takeCert_encodeCert (d : Decoded) (h : WF d) (hi : Forest d.issuer) (hs 
     (signature rest : Bytes) :
     takeCert (encodeCert d signature ++ rest) = some (readBack d true signature, rest) := by
   obtain ⟨body, hb, hf⟩ := encodeTbs_forest d hi hs
-  unfold takeCert encodeCert
+  unfold takeCert certBody encodeCert
   rw [AsDer.takeCons_tlv' tagSeq _ rest (by decide) (by decide)]
   dsimp only
   have hne : encodeTbs d ++ sigAlgEnc ++ tlv tagBitString (0 :: signature) ≠ [] := by
